@@ -11,3 +11,9 @@ func Side(leftDone bool) int { return 0 }
 func JSONWorker(firstLine int, lines int) {}
 
 func JSONReader(firstLine int, lines int) {}
+
+func Crash(point string) {}
+
+func CrashTornWrite(point string, path string, data []byte) {}
+
+func CrashTruncating(point string, dir string) {}
